@@ -16,6 +16,10 @@ from ..utils import EPSILON, MAX_FLOAT, scalar_triple_product
 
 
 EPSILON_SQR = EPSILON * EPSILON
+# Triangles with sin^2 of an angle below this value are degenerate for the
+# computation of barycentric coordinates (rounding errors of about
+# EPSILON / sin^2 would dominate the result)
+DEGENERATE_TRIANGLE_SIN_SQR = 1e-10
 ALL_TRUE = np.array([True, True, True, True], dtype=np.dtype("bool"))
 
 
@@ -336,7 +340,8 @@ def get_barycentric_coordinates_plane(a, b, c):
         # Use v0 and v1 to calculate barycentric coordinates
         d01 = v0.dot(v1)
         denominator = d00 * d11 - d01 * d01
-        if abs(denominator) < EPSILON:
+        if (abs(denominator) < EPSILON
+                or abs(denominator) < DEGENERATE_TRIANGLE_SIN_SQR * d00 * d11):
             # Degenerate triangle, return coordinates along longest edge
             if d00 > d11:
                 u, v = get_barycentric_coordinates_line(a, b)
@@ -355,9 +360,14 @@ def get_barycentric_coordinates_plane(a, b, c):
         d12 = v1.dot(v2)
 
         denominator = d11 * d22 - d12 * d12
-        if abs(denominator) < EPSILON:
+        if (abs(denominator) < EPSILON
+                or abs(denominator) < DEGENERATE_TRIANGLE_SIN_SQR * d11 * d22):
             # Degenerate triangle, return coordinates along longest edge
-            if d11 > d22:
+            # (v0 is not the shortest edge here, so it can be the longest)
+            if d00 >= d11 and d00 >= d22:
+                u, v = get_barycentric_coordinates_line(a, b)
+                w = 0.0
+            elif d11 > d22:
                 u, w = get_barycentric_coordinates_line(a, c)
                 v = 0.0
             else:
